@@ -321,6 +321,11 @@ def iv_floordiv(a: Iv, b: Iv) -> Iv:
 
 def iv_mod(a: Iv, b: Iv) -> Iv:
     """Python %: sign follows the divisor."""
+    if a.const and b.const and a.bounded and b.bounded and b.lo != 0:
+        r = int(a.lo) % int(b.lo)  # both operands exact: the exact Python remainder (any signs)
+        return Iv(r, r, a.prec and b.prec)
+    if b.hi < 0 and b.bounded:
+        return Iv(b.lo + 1, 0, a.prec and b.prec)  # negative divisor: remainder in (divisor, 0]
     if b.lo > 0:
         m = b.hi
         if b.const and a.bounded and a.lo >= 0 and a.hi - a.lo < m and (a.lo % m) <= (a.hi % m):
